@@ -139,6 +139,11 @@ def stdTy (op : Op) (p : Payload) (ts : List Ty) : Option Ty :=
   | .forall_ | .exists_ => match p, ts with | .qvars _, [.bool] => some .bool | _, _ => none
   | .strToInt | .intToStr | .pow | .algebraicConst => none
 
+/-- pairwise different terms (the keys of an array value built from a dictionary) -/
+def termsDistinct : List Term → Bool
+  | [] => true
+  | x :: xs => !xs.contains x && termsDistinct xs
+
 /-- the conditions of a node that are not about sorts -/
 def nodeOK (env : SEnv) (scope : List Sym) (op : Op) (p : Payload) (args : List Term) : Bool :=
   let n := args.length
@@ -159,7 +164,8 @@ def nodeOK (env : SEnv) (scope : List Sym) (op : Op) (p : Payload) (args : List 
       | _ => false)
   | .arrayValue, .ty idx =>
     SortOK env idx && (match args with
-                       | d :: _ => (match d.typeOf with | some e => SortOK env e | none => false)
+                       | d :: rest => (match d.typeOf with | some e => SortOK env e | none => false)
+                          && termsDistinct ((pairsOf rest).map (·.1))
                        | [] => false)
   | _, _ => true
 
@@ -289,5 +295,46 @@ def ScriptOK (logic : String) (t : Term) : Bool :=
   t.fv.eraseDups.all (fun s => nameFine s.name && SortOK (scriptEnv logic t) s.ret
     && s.params.all (SortOK (scriptEnv logic t))) &&
   t.typeOf == some .bool && Printable (scriptEnv logic t) [] t
+
+/-! ## hypotheses of `cmds_accepted`: general command lists -/
+
+def addAssert (st : StdState) (tm : Term) : StdState :=
+  match st.asserts with
+  | top :: rest => { st with asserts := (tm :: top) :: rest }
+  | [] => { st with asserts := [[tm]] }
+
+/-- the command is legal in the state `st` of the strict interpreter: names are speakable and new, every sort used is
+declared, an asserted formula is `Printable` in the environment built so far (every symbol it uses has been declared and
+is still in scope) -/
+def cmdOK (dag : Bool) (st : StdState) : Cmd → Bool
+  | .setLogic l => !st.logicSet && isSimpleSymbolChars l.toList && !isReserved l
+  | .declareSort n _ =>
+    n.toList.all nameChar && !isReserved n && !predefinedSorts.contains n && (st.env.lookupSort n).isNone
+      && (st.env.lookupAlias n).isNone
+  | .declareFun s => nameFine s.name && !st.env.nameTaken s.name && SortOK st.env s.ret && s.params.all (SortOK st.env)
+  | .declareConst s =>
+    s.params.isEmpty && nameFine s.name && !st.env.nameTaken s.name && SortOK st.env s.ret
+  | .assert t => t.typeOf == some .bool && Printable st.env [] t && (!dag || noQuant t)
+  | .push _ => true
+  | .pop n => (match popN st n with | .ok _ => true | .error _ => false)
+  | .checkSat => true
+
+/-- the state after the command -/
+def cmdNext (dag : Bool) (st : StdState) : Cmd → StdState
+  | .setLogic l => { st with env := { st.env with logic := l }, logicSet := true }
+  | .declareSort n k => { st with env := { st.env with sorts := (n, k) :: st.env.sorts } }
+  | .declareFun s | .declareConst s => { st with env := { st.env with funs := s :: st.env.funs } }
+  | .assert t => addAssert st (unfoldAVw (!dag) t)
+  | .push n => pushN st n
+  | .pop n => (match popN st n with | .ok st' => st' | .error _ => st)
+  | .checkSat => st
+
+def cmdsOK (dag : Bool) : StdState → List Cmd → Bool
+  | _, [] => true
+  | st, c :: cs => cmdOK dag st c && cmdsOK dag (cmdNext dag st c) cs
+
+def cmdsRun (dag : Bool) : StdState → List Cmd → StdState
+  | st, [] => st
+  | st, c :: cs => cmdsRun dag (cmdNext dag st c) cs
 
 end PySMT.Printer
